@@ -24,6 +24,8 @@ type TwinScript struct {
 	Ops []SOp   `json:"ops"`
 	At  int     `json:"at"` // the rejected input is delivered before op At (modulo len+1)
 	R   SOp     `json:"r"`  // how the rejected input is derived: W receiver, I source selector, X kind, L position, F value
+	// Fresh: the two conversations have never talked before (no peer instance known, no keys, no earlier exchange)
+	Fresh bool `json:"fresh,omitempty"`
 }
 
 func outSummary(out [][]byte) []string {
@@ -222,7 +224,15 @@ func deriveRejected(s *Sess, r SOp) ([]byte, string) {
 			out = out[:body+r.L%(len(out)-body)]
 			kind = "ake-truncated"
 		case 2:
-			if h.Version == 3 {
+			if h.Version == 3 && r.F%5 == 4 {
+				// from some other client instance to some other instance of ours: not for this conversation
+				copy(out[3:], ref.PutU32(nil, 0x4711abcd))
+				copy(out[7:], ref.PutU32(nil, 0x5eed0100))
+				kind = "ake-for-another-instance"
+			} else if h.Version == 3 && r.F%5 == 2 {
+				copy(out[7:], ref.PutU32(nil, 0x5eed0100)) // from the peer to another instance of ours
+				kind = "ake-for-another-instance"
+			} else if h.Version == 3 {
 				copy(out[3+4*(r.F%2):], ref.PutU32(nil, []uint32{1, 0xff, 0x4711abcd}[r.L%3]))
 				kind = "ake-tags"
 			} else {
@@ -249,7 +259,7 @@ func runTwin(sc *TwinScript) *sim.Outcome {
 	o := &sim.Outcome{}
 	worlds := [2]*Sess{newSess(&SessScript{Cfg: sc.Cfg, PolA: sc.Pol, PolB: sc.Pol}, &sim.Outcome{}), newSess(&SessScript{Cfg: sc.Cfg, PolA: sc.Pol, PolB: sc.Pol}, &sim.Outcome{})}
 	for _, s := range worlds {
-		if !s.Handshake(sc.Cfg.Starter) {
+		if !sc.Fresh && !s.Handshake(sc.Cfg.Starter) {
 			o.Discard = true
 			return o
 		}
@@ -401,6 +411,7 @@ func clip(s string) string {
 func init() {
 	reg("C06twin", runTwin)
 	reg("C06akestates", runTwin)
+	reg("C06fresh", runTwin)
 	reg("C06firstuse", runTwin)
 	reg("C06akelossy", runTwin)
 	reg("C06midsmp", runTwin)
@@ -541,6 +552,40 @@ func TestProp_C06_Twin(t *testing.T) {
 
 // TestProp_C06_AKEStates: every point of a handshake x receiver x kind of rejected key-exchange input
 // (derived from the message in flight or from an earlier one), followed by the rest of the handshake and traffic.
+// TestProp_C06_Fresh: two conversations that have never talked (no peer instance known yet); at every point of their
+// first key exchange either side receives a refused or ignored key-exchange message derived from the traffic so far:
+// wrong or foreign instance tags (also: from another instance to another instance of ours), cut short, damaged,
+// another version, retyped. The exchange must go on as if nothing had arrived.
+func TestProp_C06_Fresh(t *testing.T) {
+	si, sn := sim.Shard()
+	idx := 0
+	for _, v := range []int{3, 2} {
+		for starter := 0; starter < 2; starter++ {
+			for k := 0; k <= 4; k++ {
+				ops := []SOp{{K: "query", W: starter}}
+				for i := 0; i < k; i++ {
+					ops = append(ops, SOp{K: "dl", W: (starter + i) & 1})
+				}
+				at := len(ops)
+				ops = append(ops, SOp{K: "flush"}, SOp{K: "pp", W: 0, I: 1, L: 5})
+				for rcv := 0; rcv < 2; rcv++ {
+					for _, xf := range [][3]int{{2, 4, 0}, {2, 2, 0}, {2, 0, 0}, {2, 1, 1}, {2, 0, 2}, {1, 0, 7}, {1, 0, 30}, {0, 3, 9}, {3, 0, 0}, {5, 1, 0}, {5, 2, 0}, {7, 0, 0}, {7, 1, 1}} {
+						for _, src := range []int{0, 2} {
+							idx++
+							if idx%sn != si {
+								continue
+							}
+							sc := &TwinScript{Cfg: SessCfg{V: v, SeedA: 1720, SeedB: 1821, KeyA: 0, KeyB: 3}, Fresh: true, Ops: ops, At: at, R: SOp{W: rcv, I: src, X: xf[0], F: xf[1], L: xf[2]}}
+							sim.Judge(t, "C06fresh", sc)
+						}
+					}
+				}
+			}
+		}
+	}
+	sim.MarkCompleted("C06fresh", true)
+}
+
 func TestProp_C06_AKEStates(t *testing.T) {
 	si, sn := sim.Shard()
 	idx := 0
